@@ -435,6 +435,22 @@ func registerStdStubs(sh *Shared) {
 		return *f
 	})
 
+	// --- sync/atomic.Pointer[T]: struct{_ [0]*T; _ noCopy; v unsafe.Pointer}; the pointer is kept in a side table ---
+	reg("(*sync/atomic.Pointer[T]).Load", func(fr *frame, args []value) value {
+		fr.i.syncPoint(fr, "atomic-load")
+		fr.i.hbAcquire(fr, args[0])
+		if v, ok := fr.i.side().atomicVal[args[0].(*value)]; ok {
+			return v
+		}
+		return (*value)(nil)
+	})
+	reg("(*sync/atomic.Pointer[T]).Store", func(fr *frame, args []value) value {
+		fr.i.syncPoint(fr, "atomic-store")
+		fr.i.side().atomicVal[args[0].(*value)] = args[1]
+		fr.i.hbRelease(fr, args[0])
+		return nil
+	})
+
 	// --- sync/atomic.Value ---
 	reg("(*sync/atomic.Value).Load", func(fr *frame, args []value) value {
 		fr.i.syncPoint(fr, "atomic-load")
